@@ -241,3 +241,61 @@ Proof.
   - rewrite (eval_args_cons_ok _ _ _ _ _ _ _ _ _ _ Harg). reflexivity.
   - reflexivity.
 Qed.
+
+(* ---- try / catch: what a catcher clause is made of ---- *)
+
+(* the same statement with more room below the depth limit (nested list calls in the macro body) *)
+Definition macro_expands_within (slack : N) (name : text) (operands : list val) (result : val) : Prop :=
+  exists restp params body cenv cmod,
+    option_map getv (prelude_global name) = Some (VFun true restp params body cenv cmod) /\
+    exists newenv, pair_params (s "#<function>") params restp operands cenv 0 (List.length operands) = inl newenv /\
+    forall st d, has_prelude st -> d + slack <= MAXD ->
+    exists fuel st' r, eval_internal fuel st body newenv cmod d = (st', ROk r) /\ has_prelude st' /\
+                       strip r = strip result.
+
+Ltac open_macro_within :=
+  unfold macro_expands_within;
+  eexists; eexists; eexists; eexists; eexists; split; [vm_compute; reflexivity|];
+  eexists; split; [reflexivity|];
+  intros st d Hg Hd.
+
+(* (catch-all B) -> (test t body B): the clause matches every signal *)
+Theorem catch_all_expansion B : macro_expands_within 3 (s "catch-all") [B] (vec_to_list [vsym "test"; t_value; vsym "body"; B]).
+Proof.
+  open_macro_within.
+  match goal with |- exists fuel st' r, eval_internal fuel st ?body ?env ?m d = _ /\ _ /\ _ =>
+    assert (H : exists r, evals_to 4 body env d r /\ strip r = strip (vec_to_list [vsym "test"; t_value; vsym "body"; B])) end.
+  { eexists. split.
+    - list_call 2%nat. repeat constructor; [arg_quote|arg_global|arg_quote|arg_local].
+    - reflexivity. }
+  destruct H as (r & H & Hs). destruct (H st 0%nat Hg) as (st' & He & Hg').
+  eexists; exists st', r. split; [exact He|]. split; [exact Hg'|exact Hs].
+Qed.
+
+(* (catch K B) -> (test (= (get-property-safe 'kind TRAPPED-SIGNAL) 'K) body B) where TRAPPED-SIGNAL is
+   the variable the trap binds: the clause's test
+   reads the kind of the trapped signal through get-property-safe and compares it with K, for
+   EVERY kind form K and body form B *)
+Definition catch_clause (K B : val) : val :=
+  vec_to_list [vsym "test";
+               vec_to_list [vsym "="; vec_to_list [vsym "get-property-safe"; vec_to_list [vsym "quote"; vsym "kind"]; vsym "*trapped-signal*"];
+                            vec_to_list [vsym "quote"; K]];
+               vsym "body"; B].
+
+Theorem catch_expansion K B : macro_expands_within 5 (s "catch") [K; B] (catch_clause K B).
+Proof.
+  open_macro_within.
+  match goal with |- exists fuel st' r, eval_internal fuel st ?body ?env ?m d = _ /\ _ /\ _ =>
+    assert (H : exists r, evals_to 10 body env d r /\ strip r = strip (catch_clause K B)) end.
+  { eexists. split.
+    - list_call 8%nat. constructor; [apply (evals_to_mono 2 8); [lia|]; arg_quote|].
+      constructor; [|constructor; [apply (evals_to_mono 2 8); [lia|]; arg_quote|constructor; [apply (evals_to_mono 2 8); [lia|]; arg_local|constructor]]].
+      list_call 6%nat. constructor; [apply (evals_to_mono 2 6); [lia|]; arg_quote|]. constructor; [|constructor; [|constructor]].
+      + list_call 4%nat. constructor; [apply (evals_to_mono 2 4); [lia|]; arg_quote|].
+        constructor; [|constructor; [apply (evals_to_mono 2 4); [lia|]; arg_quote|constructor]].
+        list_call 2%nat. repeat constructor; [arg_quote|arg_quote].
+      + apply (evals_to_mono 4 6); [lia|]. list_call 2%nat. repeat constructor; [arg_quote|arg_local].
+    - reflexivity. }
+  destruct H as (r & H & Hs). destruct (H st 0%nat Hg) as (st' & He & Hg').
+  eexists; exists st', r. split; [exact He|]. split; [exact Hg'|exact Hs].
+Qed.
